@@ -23,8 +23,11 @@ STEP_TYPES = {"Unknown", "Context", "Action", "Outcome"}
 D1 = "D1-placeholder-header-used-as-regex"
 D2 = "D2-outline-first-conjunction-type-None"
 
-NAMES = ["a", "b", "h", "a.b", "a(b", "x*", "[", "$", "\\", "a\\|b", "h h", "", "a+", "é", "<a>", "a>b", "1", "^a", "a|b", "(?i)a", "\\d", ".", "\\1"]
-VALUES = ["1", "", "v", "\\", "\\1", "\\g<0>", "$1", "<a>", "<b>", "a.b", "x y", "|", "\n", "é\U0001F600", "\\\\", "(", "<h>", "&", "\\n"]
+NAMES = ["a", "b", "h", "a.b", "a(b", "x*", "[", "$", "\\", "a\\|b", "h h", "", "a+", "é", "<a>", "a>b", "1", "^a", "a|b", "(?i)a", "\\d", ".", "\\1",
+         # pairs that unicode normalisation or case folding would identify: decomposed/precomposed, compatibility forms, case
+         "e\u0301", "\u212b", "\u00c5", "A\u030a", "\u1100\u1161", "\uac00", "\uf900", "\u8c48", "\ufb01", "fi", "\u2126", "\u03a9",
+         "A", "H", "\u0130", "\uff41", "\u00df", "ss"]
+VALUES = ["1", "", "v", "\\", "\\1", "\\g<0>", "$1", "<a>", "<b>", "a.b", "x y", "|", "\n", "é\U0001F600", "\\\\", "(", "<h>", "&", "\\n", "e\u0301", "\u212b", "\ufeff", "\u2028"]
 KTYPES = ["Context", "Action", "Outcome", "Conjunction", "Unknown"]
 KEYWORD = {"Context": "Given ", "Action": "When ", "Outcome": "Then ", "Conjunction": "And ", "Unknown": "* "}
 
